@@ -181,3 +181,64 @@ func init() {
 		return &StrV{T: t}
 	}
 }
+
+func init() {
+	const coreTypes = "github.com/ethereum/go-ethereum/core/types"
+	models[coreTypes+".BytesToBloom"] = func(it *Interp, a []Val) Val {
+		s := a[0].(*StrV)
+		ln := it.strLen(s)
+		if it.p.branch(BVCmp("bvugt", ln, BVu(64, 256))) {
+			it.tpanic("bloom bytes too big (BytesToBloom)")
+		}
+		t := App("bloom", SStr, it.toA(s))
+		if !it.p.lenAx[t.id] {
+			it.p.lenAx[t.id] = true
+			it.p.assertAxiom(Eq(App("len", bvSort(64), t), BVu(64, 256)))
+		}
+		return &StrV{T: t, IsArr: true}
+	}
+	models[coreTypes+".EncodeNonce"] = func(it *Interp, a []Val) Val {
+		r := it.u64ToBE(a[0].(*Term))
+		r.IsArr = true
+		return r
+	}
+	models[coreTypes+".CalcUncleHash"] = func(it *Interp, a []Val) Val {
+		// hash of the empty uncle list: a fixed 32-byte constant
+		r := strLit("\x1d\xcc\x4d\xe8\xde\xc7\x5d\x7a\xab\x85\xb5\x67\xb6\xcc\xd4\x1a\xd3\x12\x45\x1b\x94\x8a\x74\x13\xf0\xa1\x42\xfd\x40\xd4\x93\x47")
+		r.IsArr = true
+		return r
+	}
+	models[ethCrypto+".Ecrecover"] = func(it *Interp, a []Val) Val {
+		h, sig := it.toA(a[0].(*StrV)), it.toA(a[1].(*StrV))
+		it.strLenTerm(sig)
+		if !it.p.branch(App("ecrecover_ok", SBool, h, sig)) {
+			return Tuple{&StrV{IsB: true, Nil: true}, it.newErr(IfaceV{}, "invalid signature")}
+		}
+		pk := App("ecrecover", SStr, h, sig)
+		if !it.p.lenAx[pk.id] {
+			it.p.lenAx[pk.id] = true
+			it.p.assertAxiom(Eq(App("len", bvSort(64), pk), BVu(64, 65)))
+		}
+		return Tuple{&StrV{T: pk}, IfaceV{}}
+	}
+	// rlp.Encode(w, v): one Write of "the RLP encoding of v" (an injective function of v's leaves)
+	models["github.com/ethereum/go-ethereum/rlp.Encode"] = func(it *Interp, a []Val) Val {
+		w := a[0].(IfaceV)
+		val := a[1].(IfaceV)
+		var leaves []*Term
+		if !it.flatten(val.V, &leaves) {
+			it.fail("rlp.Encode: cannot flatten %s", it.describe(val))
+		}
+		name := fmt.Sprintf("rlpenc!%d", len(leaves))
+		t := App(name, SStr, leaves...)
+		it.p.noteInjective(name, t)
+		it.strLenTerm(t)
+		if w.IsNil() || w.T == nil {
+			it.fail("rlp.Encode into %s", it.describe(w))
+		}
+		f := it.methodOf(w, "Write")
+		it.callFunction(f, []Val{w.V, &StrV{T: t}}, nil)
+		return IfaceV{}
+	}
+	execThrough["github.com/tendermint/tendermint/light.ValidateTrustLevel"] = true
+}
